@@ -157,6 +157,12 @@ class _Recorder:
         return Proxy()
 
 
+def _listing(root):
+    for base, _, names in os.walk(root):
+        for nm in names:
+            yield os.path.relpath(os.path.join(base, nm), root)
+
+
 def _drain_writer():
     """drop (and delete the temp files of) whatever a failed run left queued in vermouth's singleton"""
     from vermouth.file_writer import DeferredFileWriter
@@ -190,7 +196,14 @@ def run_pipeline(spec, keep=False):
     result = dict(trace=trace, captured=captured)
     name = spec["name"]
     tmp = tempfile.mkdtemp(prefix="c11_")
-    out = pathlib.Path(tmp) / "out.itp"
+    # where the caller asks for the output: any file name (suffix or not, several dots, upper case,
+    # sub-directory), given absolute or relative to the working directory
+    out_name = spec.get("out_name") or "out.itp"
+    out = pathlib.Path(tmp) / "work" / out_name
+    out.parent.mkdir(parents=True, exist_ok=True)
+    out_arg = pathlib.Path(out_name) if spec.get("out_rel") else out
+    before = set(_listing(tmp))
+    old_cwd = os.getcwd()
     inpath = []
     for fname, text in sorted((spec.get("files") or {}).items()):
         path = pathlib.Path(tmp) / fname
@@ -245,7 +258,8 @@ def run_pipeline(spec, keep=False):
         gen_itp.find_missing_edges = missing_wrapper
         sys.argv = list(spec.get("argv") or ["polyply", "gen_params"])
         try:
-            gen_itp.gen_params(name=name, outpath=out, inpath=inpath, lib=spec.get("lib"),
+            os.chdir(str(pathlib.Path(tmp) / "work"))
+            gen_itp.gen_params(name=name, outpath=out_arg, inpath=inpath, lib=spec.get("lib"),
                                seq=spec.get("seq"), seq_file=seq_file,
                                dsdna=bool(spec.get("dsdna")), mods=[], protter=False)
             result["raised"] = None
@@ -258,26 +272,52 @@ def run_pipeline(spec, keep=False):
         gen_itp.MapToMolecule, gen_itp.ApplyLinks = orig_map, orig_links
         gen_itp.find_missing_edges = orig_missing
         sys.argv = orig_argv
+        os.chdir(old_cwd)
         _drain_writer()
 
-    result["written"] = out.exists()
+    # the file must be at exactly the requested path
+    result["written"] = out.is_file()
+    result["requested_path"] = str(out_arg)
+    result["new_files"] = sorted(set(_listing(tmp)) - before)
     result["tmp"] = tmp
     if result["written"]:
         text = out.read_text()
         result["text"] = text
         # (1) polyply's topology reader on a minimal .top that includes the file
-        top_path = pathlib.Path(tmp) / "system.top"
-        top_path.write_text('#include "out.itp"\n[ system ]\nverif\n[ molecules ]\n%s 1\n' % name)
+        # the .top sits next to the written file; it is reached (read_mode) by its absolute path, by a path
+        # relative to the working directory, or through a symbolic link in the output directory whose target
+        # lives elsewhere (next to a stale file of the same name): includes are relative to the path GIVEN
+        top_text = '#include "%s"\n[ system ]\nverif\n[ molecules ]\n%s 1\n' % (out.name, name)
+        read_mode = spec.get("read_mode") or "plain"
+        top_path = out.parent / "verif_system.top"
+        top_arg = str(top_path)
+        if read_mode == "symlink":
+            elsewhere = pathlib.Path(tmp) / "elsewhere"
+            elsewhere.mkdir(exist_ok=True)
+            (elsewhere / "verif_system.top").write_text(top_text)
+            (elsewhere / out.name).write_text("; stale file\n[ moleculetype ]\n%s 1\n[ atoms ]\n1 STALE 1 OLD X1 1 0.0 1.0\n" % name)
+            os.symlink(str(elsewhere / "verif_system.top"), str(top_path))
+        else:
+            top_path.write_text(top_text)
         try:
-            top = Topology.from_gmx_topfile(str(top_path), "verif")
+            if read_mode == "relative":
+                os.chdir(str(out.parent))
+                top_arg = "verif_system.top"
+            elif read_mode == "relative-dir":
+                os.chdir(tmp)
+                top_arg = os.path.relpath(str(top_path), tmp)
+            top = Topology.from_gmx_topfile(top_arg, "verif")
             meta = top.molecules[0]
             result["top"] = dict(ok=True, block=block_to_json(meta.molecule), graph=res_graph_to_json(meta),
                                  block_name=meta.mol_name, nrexcl=top.force_field.blocks[name].nrexcl)
         except Exception as err:  # pylint: disable=broad-except
             result["top"] = dict(ok=False, err="%s: %s" % (type(err).__name__, str(err)[:300]),
                                  cause=repr(getattr(err, "__cause__", None))[:300])
+        finally:
+            os.chdir(old_cwd)
+        result["top"]["read_mode"] = read_mode
         # (1b) the flattened form: one .top whose text is the written itp followed by [ system ] / [ molecules ]
-        flat_path = pathlib.Path(tmp) / "flat.top"
+        flat_path = out.parent / "verif_flat.top"
         flat_path.write_text(text + "\n[ system ]\nverif\n[ molecules ]\n%s 1\n" % name)
         try:
             top = Topology.from_gmx_topfile(str(flat_path), "verif_flat")
